@@ -3,7 +3,7 @@
    the .ml lands there. *)
 From Coq Require Import Extraction ExtrOcamlBasic.
 From Coq Require Import List NArith.
-From FsDb Require Import VList VListRun Codec Core Spec ErrMap ErrMapInst Config.
+From FsDb Require Import VList VListRun Codec Core Spec ErrMap ErrMapInst Config Dirs.
 
 Extraction Language OCaml.
 
@@ -13,4 +13,5 @@ Extraction "fsdb_model.ml"
   Spec.a_init Spec.astep Spec.kvstep Spec.no_late_writes Spec.autocommit_only
   ErrMapInst.errmap_run_err ErrMapInst.errmap_run_wire ErrMapInst.errmap_run_level ErrMapInst.errmap_run_plevel
   Config.run_parse Config.run_valid
-  Codec.run_marshal Codec.run_unmarshal Codec.uuid_format Codec.uuid_parse.
+  Codec.run_marshal Codec.run_unmarshal Codec.uuid_format Codec.uuid_parse
+  Dirs.dr_init Dirs.dr_step Dirs.dr_allowed Dirs.dr_get_phase.
